@@ -1,12 +1,12 @@
 /*UNIT
 {"props": ["C03","C06","C04"], "kind": "K1", "tier": "thorough", "timeout": 900,
- "extra_src": ["stubs/mem_sampled.c"],
+ "extra_src": ["stubs/mem_sampled.c"], "cbmc": ["--sat-solver", "cadical"],
  "replace": ["ZSTD_safecopy"],
  "functions": ["ZSTD_execSequenceEnd"],
  "floor": 80,
  "assumes": ["ZSTD_safecopy replaced by its contract (contracts/safecopy.h, assumed): REQUIRES destination range writable and source range readable; its byte-level effect is not modelled (content of the output is not claimed here)",
              "decoder buffer geometry: one output object ending at oend; prefixStart <= op inside it; the part of the history that lies in the dictionary is modelled as the slice [virtualStart, prefixStart) of the same object (never accessed) so that virtualStart is an ordinary pointer; dictionary object of exactly prefixStart - virtualStart bytes ending at dictEnd; literal object ending at litLimit"],
- "what": "sequence execution near the end of the output on an ARBITRARY sequence (any literal length, match length, offset including SIZE_MAX): every length read from the stream is checked before use — the copy helpers are only ever asked to write inside [op, oend) and to read inside the literal buffer, the current prefix or the dictionary; result is an error or exactly litLength + matchLength; the literal cursor advances by litLength"}
+ "what": "sequence execution near the end of the output on an ARBITRARY sequence (any offset including SIZE_MAX; literal and match length within the bounds that unit c03_decode_sequence proves for the sequence decoder): every length read from the stream is checked before use — the copy helpers are only ever asked to write inside [op, oend) and to read inside the literal buffer, the current prefix or the dictionary; result is an error or exactly litLength + matchLength; the literal cursor advances by litLength"}
 */
 #include "verif.h"
 #include "lib/common/error_private.c"
@@ -26,6 +26,8 @@ void harness(void)
     ASSUME(Sl <= ((size_t)1 << 20) && lp <= Sl);
     out = (BYTE*)malloc(So); dict = (BYTE*)malloc(p - v); lit = (BYTE*)malloc(Sl);
     ASSUME(out && dict && lit);
+    /* lengths come from ZSTD_decodeSequence: its postcondition (unit c03_decode_sequence) bounds them, so ll + ml cannot wrap */
+    ASSUME(ll <= 0x1FFFF + 0x10000 && ml <= 0x1FFFF + 0x10000 + 3);
     seq.litLength = ll; seq.matchLength = ml; seq.offset = off;
     litPtr = lit + lp;
     r = ZSTD_execSequenceEnd(out + o, out + So, seq, &litPtr, lit + Sl, out + p, out + v, dict + (p - v));
